@@ -933,9 +933,10 @@ impl ASN1Value {
                 ASN1Type::ElsewhereDeclaredType(e),
                 ASN1Value::LinkedNestedValue { supertypes, value },
             ) => {
-                if supertypes.contains(&e.identifier) {
+                if e.is_alias_cycle(tlds) {
                     // `A ::= B`, `B ::= A` (or `T ::= Mod.T` under bare-name lookup): following
-                    // the aliases would never end
+                    // the aliases would never end. (`supertypes` cannot tell: a value that is
+                    // linked a second time already lists its governing types.)
                     return Err(grammar_error!(
                         LinkerError,
                         "Cyclic type reference while linking a value with '{}'",
